@@ -213,6 +213,26 @@ def gen(ctx, rng):
         pyr.shuffle(labels)
         spreads = [pyr.randint(0, 4) for _ in range(K)]
         cases.append((K, m, labels, spreads, "random"))
+    # long series: thousands of points (sizes on both sides of powers of two), the under-populated clusters anywhere
+    # among the ids; checked by the property monitor only (the model is evaluated on the short cases)
+    for j in range(ctx.budget(36, 200)):
+        K = pyr.randint(3, 7)
+        total = pyr.choice([1023, 1024, 1025, 2047, 2048, 2049, 3000, 4095, 4096, 4097, 6000, 8193])
+        m = pyr.choice([1, 2, 10, 50, 200])
+        empties = set(pyr.sample(range(K), pyr.randint(1, max(1, K - 2))))
+        big = [k for k in range(K) if k not in empties]
+        sizes = [pyr.choice([0, 0, 1]) if k in empties else 0 for k in range(K)]
+        rest = total - sum(sizes)
+        cuts = sorted(pyr.sample(range(1, rest), len(big) - 1)) if len(big) > 1 else []
+        for k, (a, b) in zip(big, zip([0] + cuts, cuts + [rest])):
+            sizes[k] = b - a
+        labels = []
+        for k, sz in enumerate(sizes):
+            labels += [k] * sz
+        if j % 2:
+            pyr.shuffle(labels)
+        spreads = [pyr.randint(0, 4) for _ in range(K)]
+        cases.append((K, m, labels, spreads, "long"))
     return cases
 
 
@@ -262,6 +282,8 @@ def run(ctx):
                 ctx.mark_nontrivial((K, m, tuple(labels), tuple(spreads)))
             if i in (0, 50, 500):
                 ctx.sample({"K": K, "m": m, "labels": labels, "spreads": spreads, "order": r["order"], "draws": r["draws"], "out": r["out"], "error": r["error"]})
+            if stream == "long":
+                continue
             coq_cases.append(to_coq(K, m, spreads, r["order"], r["draws"], labels))
             expected.append("None" if r["out"] is None else "(Some %s)" % c_list(r["out"], c_nat))
             keep.append((K, m, labels, spreads, r))
